@@ -26,7 +26,7 @@ func init() {
 		ID:          "C04",
 		Run:         RunC04,
 		Replay:      func(c *Ctx, entry, input string) { CheckC04(c, entry, input) },
-		Rule:        "cases = (entry, input): corpus (clean and !bad_) under its entries and the list entries, type seeds, nesting families, generated sentences of grammar G, token mutants / splices / random bytes, and an operand matrix (every primary-expression form x binary/unary/postfix/comparison context, complete and truncated); for every returned tree SQL(), Pos(), End() are called on every reflectively enumerated node and Walk/Inspect/Preorder(+Many) on every root; distinct_nontrivial = distinct (entry,input)",
+		Rule:        "cases = (entry, input): corpus (clean and !bad_) under its entries and the list entries, type seeds, nesting families, wide lists (300..40000 elements), wide lists with one deep element (129..1200 elements x 130..1100-deep chain / parentheses / array nest at the first, middle, last-but-one and last position), long tokens, generated sentences of grammar G, token mutants / splices / random bytes, and an operand matrix (every primary-expression form x binary/unary/postfix/comparison context, complete and truncated); for every returned tree SQL(), Pos(), End() are called on every reflectively enumerated node and Walk/Inspect/Preorder(+Many) on every root; distinct_nontrivial = distinct (entry,input)",
 		Assumptions: []string{"nodes are enumerated by reflection over exported fields, independently of ast.Walk"},
 		Floors: func(m *Merged) []string {
 			f := missingBadKinds(m)
@@ -160,7 +160,7 @@ func init() {
 		ID:          "C12",
 		Run:         RunC12,
 		Replay:      func(c *Ctx, entry, input string) { CheckC12(c, input) },
-		Rule:        "cases = input strings: statement lists of C11's workload, exhaustive strings up to 6 (quick) / 7 (thorough) symbols over {a ; ' \" ` - / * # LF SP \\}, token soups and hostile random bytes; pieces are checked against the independent reference lexer's tokens and comments; distinct_nontrivial = distinct accepted inputs with >= 1 ';' token and >= 1 other token",
+		Rule:        "cases = input strings: statement lists of C11's workload, exhaustive strings up to 6 (quick) / 7 (thorough) symbols over {a ; ' \" ` - / * # LF SP \\}, token soups and hostile random bytes, every Unicode whitespace character and its non-whitespace neighbours around top-level ';'; pieces are checked against the independent reference lexer's tokens and comments; distinct_nontrivial = distinct accepted inputs with >= 1 ';' token and >= 1 other token",
 		Assumptions: []string{"the reference lexer decides 'has a lexical error'; inputs where it answers unspecified are not judged"},
 		Floors: func(m *Merged) []string {
 			if m.Counters["ref_accept"] == 0 || m.Counters["ref_reject"] == 0 || m.Counters["comments"] == 0 || m.Counters["semicolons"] == 0 {
@@ -243,11 +243,11 @@ func init() {
 		ID:          "C07",
 		Run:         RunC07,
 		Replay:      ReplayC07,
-		Rule:        "cases = operator trees over OR AND NOT = != <> < <= > >= [NOT] LIKE, [NOT] IN (list / UNNEST), [NOT] BETWEEN, IS [NOT] NULL/TRUE/FALSE, | ^ & << >> + - * / ||, unary + - ~, .f, [i], [OFFSET(i)] with ident / param / string / int / call atoms: exhaustive for all trees with up to 3 (quick) / 4 (thorough) operator occurrences, random trees up to 12 operators; each printed minimally parenthesised (by the documented table) and fully parenthesised; the parsed tree must equal the generating tree (ParenExpr exactly where a parenthesis was written; sign folding into numeric literals and ident.ident Path folding applied) and SQL() must re-lex to the same tokens; plus all 324 unparenthesised chains of two comparison-family operators, which must be rejected; distinct_nontrivial = enumerated trees (distinct by construction) + distinct random trees",
+		Rule:        "cases = operator trees over OR AND NOT = != <> < <= > >= [NOT] LIKE, [NOT] IN (list / UNNEST), [NOT] BETWEEN, IS [NOT] NULL/TRUE/FALSE, | ^ & << >> + - * / ||, unary + - ~, .f, [i], [OFFSET(i)] with ident / param / string / int / call atoms: exhaustive for all trees with up to 3 (quick) / 4 (thorough) operator occurrences, random trees up to 12 operators; each printed minimally parenthesised (by the documented table) and fully parenthesised; the parsed tree must equal the generating tree (ParenExpr exactly where a parenthesis was written; sign folding into numeric literals and ident.ident Path folding applied) and SQL() must re-lex to the same tokens; plus long chains (257 / 4099 / 12000, thorough 70001 operands) of every left-associative binary operator, of two operators of adjacent or equal precedence alternating, of each prefix operator and of subscripts, whose spine is checked node by node; plus all 324 unparenthesised chains of two comparison-family operators, which must be rejected; distinct_nontrivial = enumerated trees (distinct by construction) + distinct random trees",
 		Assumptions: []string{"the precedence table in internal/mon/c07.go is the documented GoogleSQL table (levels as listed in the property statement)"},
 		Floors: func(m *Merged) []string {
-			if m.Counters["trees_checked"] == 0 || m.Counters["negative_cases"] == 0 {
-				return []string{"trees and negative cases must be observed"}
+			if m.Counters["trees_checked"] == 0 || m.Counters["negative_cases"] == 0 || m.Counters["long_chains"] == 0 {
+				return []string{"trees, long chains and negative cases must be observed"}
 			}
 			return nil
 		},
